@@ -470,7 +470,7 @@ def roi_shape(roi: NdROI) -> Tuple[int, ...]:
     """
 
     def slice_dim(s: SomeSlice) -> int:
-        if isinstance(s, int):
+        if isinstance(s, (int, np.integer)):
             return 1
         _out = s.stop
         if _out is None:
@@ -505,7 +505,7 @@ def roi_is_full(roi: NdROI, shape: Union[int, Tuple[int, ...]]) -> bool:
     """
 
     def slice_full(s: SomeSlice, n: int) -> bool:
-        if isinstance(s, int):
+        if isinstance(s, (int, np.integer)):
             return n == 1
         return s.start in (0, None) and s.stop in (n, None)
 
@@ -524,7 +524,7 @@ def _fill_if_none(x: Optional[T], val_if_none: T) -> T:
 
 
 def _norm_slice_or_error(s: SomeSlice) -> NormalizedSlice:
-    if isinstance(s, int):
+    if isinstance(s, (int, np.integer)):
         start = s
         stop = s + 1
         step = None
@@ -544,7 +544,7 @@ def _norm_slice_or_error(s: SomeSlice) -> NormalizedSlice:
 
 
 def _norm_slice(s: SomeSlice, n: int) -> NormalizedSlice:
-    if isinstance(s, int):
+    if isinstance(s, (int, np.integer)):
         if s < 0:
             s = n + s
         return slice(s, s + 1)
